@@ -847,6 +847,88 @@ theorem normal_cubic_rotated (a : K) (ha : 0 < a) (R : M3 K) (ho : RowsOrthonorm
 
 end ordered
 
+/-! ## counts and thresholds: long arrays in blocks, exact in-plane vectors, unsigned index arrays -/
+
+/-- the two in-plane vectors the routine picks LIE in the plane: each satisfies the zone law `h u + k v + l w = 0`
+    exactly — the integer divisions `m / h` lose nothing (an implementation that computes them as `m * (1/h)` in floating
+    point and truncates does: `49 * (1/49) < 1`). -/
+theorem inplane_zone (h k l : ℤ) (a b : V3 ℤ) (s : ℤ) (hp : planeInPlane h k l = .ok (a, b, s)) :
+    h * a.x + k * a.y + l * a.z = 0 ∧ h * b.x + k * b.y + l * b.z = 0 := by
+  have hne : ¬(h = 0 ∧ k = 0 ∧ l = 0) := by
+    rintro ⟨rfl, rfl, rfl⟩
+    simp [planeInPlane] at hp
+  obtain ⟨a', b', s', heq, num, den, hn, hd, hvec⟩ := idx_cross_parallel h k l hne
+  rw [hp] at heq
+  injection heq with heq
+  simp only [Prod.mk.injEq] at heq
+  obtain ⟨rfl, rfl, rfl⟩ := heq
+  simp only [V3.smul, V3.cross, V3.mk.injEq] at hvec
+  obtain ⟨hx, hy, hz⟩ := hvec
+  have ha : num * (h * a.x + k * a.y + l * a.z) = 0 := by
+    linear_combination (-a.x) * hx + (-a.y) * hy + (-a.z) * hz
+  have hb : num * (h * b.x + k * b.y + l * b.z) = 0 := by
+    linear_combination (-b.x) * hx + (-b.y) * hy + (-b.z) * hz
+  have hn' : num ≠ 0 := by omega
+  exact ⟨(mul_eq_zero.mp ha).resolve_left hn', (mul_eq_zero.mp hb).resolve_left hn'⟩
+
+/-- non-vacuity, at the indices where `k * (1/k) ≠ 1` in double arithmetic. -/
+example : planeInPlane 49 7 14 = .ok (⟨-2, 14, 0⟩, ⟨-2, 0, 7⟩, 1) := by decide
+example : planeInPlane 49 1 1 = .ok (⟨-1, 49, 0⟩, ⟨-1, 0, 49⟩, 1) := by decide
+example : planeInPlane 98 1 3 = .ok (⟨-3, 294, 0⟩, ⟨-3, 0, 98⟩, 1) := by decide
+example : planeInPlane (-103) 0 2 = .ok (⟨-2, 0, -103⟩, ⟨0, 1, 0⟩, -1) := by decide
+
+/-- MANY planes in one call: evaluating an array in two blocks and joining the results is evaluating it whole — the
+    result for a row depends neither on how many rows come with it nor on where the array is cut (so on no block size);
+    a block that is refused refuses the whole. -/
+theorem planeArr_append (rtol atol gatol : Rat) (isHex : Bool) (V : M3 Rat) (xs ys : List (List Rat)) :
+    planeArr rtol atol gatol isHex V (xs ++ ys) =
+      match planeArr rtol atol gatol isHex V xs, planeArr rtol atol gatol isHex V ys with
+      | .ok o1, .ok o2 => .ok (o1 ++ o2)
+      | _, _ => .error .value := by
+  unfold planeArr
+  rw [List.all_append, List.filterMap_append]
+  by_cases h1 : (xs.all fun r => (planeRow rtol atol gatol isHex V r).toBool) = true <;>
+    by_cases h2 : (ys.all fun r => (planeRow rtol atol gatol isHex V r).toBool) = true <;>
+    simp [h1, h2]
+
+section blocks
+variable {K : Type} [Zero K] [Add K] [Neg K] [LT K] [DecidableLT K] [LE K] [DecidableLE K]
+
+/-- the sum guard of a long array is the guard of its blocks. -/
+theorem guardAll_append (atol : K) (xs ys : List (V4 K)) :
+    guardAll atol (xs ++ ys) = (guardAll atol xs && guardAll atol ys) := by
+  unfold guardAll
+  exact List.all_append
+
+theorem plane4to3Arr_append (atol : K) (xs ys : List (V4 K)) :
+    plane4to3Arr atol (xs ++ ys) =
+      match plane4to3Arr atol xs, plane4to3Arr atol ys with
+      | .ok o1, .ok o2 => .ok (o1 ++ o2)
+      | _, _ => .error .value := by
+  unfold plane4to3Arr
+  rw [guardAll_append, List.map_append]
+  cases guardAll atol xs <;> cases guardAll atol ys <;> simp
+
+theorem vector4to3Arr_append [Mul K] [NatCast K] (atol : K) (xs ys : List (V4 K)) :
+    vector4to3Arr atol (xs ++ ys) =
+      match vector4to3Arr atol xs, vector4to3Arr atol ys with
+      | .ok o1, .ok o2 => .ok (o1 ++ o2)
+      | _, _ => .error .value := by
+  unfold vector4to3Arr
+  rw [guardAll_append, List.map_append]
+  cases guardAll atol xs <;> cases guardAll atol ys <;> simp
+
+end blocks
+
+/-- indices held in an UNSIGNED array: the four-index form of a plane with `h, k ≥ 0`, `h + k > 0` has a negative third
+    index (and sums to zero), so it does not fit the dtype the three-index form came in: `plane3to4` has to leave it. -/
+theorem plane3to4_third_negative (h k l : ℤ) (hh : 0 ≤ h) (hk : 0 ≤ k) (hpos : 0 < h + k) :
+    (plane3to4 (⟨h, k, l⟩ : V3 ℤ)).c < 0 ∧
+      (plane3to4 (⟨h, k, l⟩ : V3 ℤ)).a + (plane3to4 (⟨h, k, l⟩ : V3 ℤ)).b + (plane3to4 (⟨h, k, l⟩ : V3 ℤ)).c = 0 := by
+  simp only [plane3to4]
+  constructor <;> omega
+
+
 /-! ## non-vacuity: concrete instances of the hypotheses -/
 example : RowsOrthonormal (K := ℚ) ⟨⟨2/3, -1/3, 2/3⟩, ⟨2/3, 2/3, -1/3⟩, ⟨-1/3, 2/3, 2/3⟩⟩
     ∧ M3.det (K := ℚ) ⟨⟨2/3, -1/3, 2/3⟩, ⟨2/3, 2/3, -1/3⟩, ⟨-1/3, 2/3, 2/3⟩⟩ = 1 := by
